@@ -22,6 +22,8 @@ def exposed(r, spell=None):
 
 def ref_text(prog, ref, qualify=None, spell=None, scalar_form="plain"):
     c = ref["c"]
+    if c == "count(*)":
+        return c
     if ref["r"] == 0:
         return c
     if ref["r"] == 8:
